@@ -237,6 +237,52 @@ def main(ctx):
                     XUNITS.append((dt, data, bk, bv, mn, None, entry))
     ctx.lattice("integer-ranges", XUNITS, one, bounds=dict(types=["i1", "u1", "i2", "u2", "i4", "i8"]))
 
+    # binning parameters given as other numeric TYPES (numpy scalars of narrow types, Python ints): the result must be
+    # what the plain float/int of the same value gives
+    def one_typed(case, rec):
+        data, bkind, bspec, mnspec, mxspec, entry = case
+
+        def val(spec):
+            if spec is None:
+                return None, None
+            t, v = spec
+            plain = float(v) if t.startswith("f") or t == "pyfloat" else int(v)
+            if t == "pyint":
+                return int(v), (float(v) if bkind == "binsize" or True else v)
+            if t == "pyfloat":
+                return float(v), float(v)
+            return np.dtype(t).type(v), plain
+        bt, bp = val(bspec)
+        mnt, mnp = val(mnspec)
+        mxt, mxp = val(mxspec)
+        arr = np.array(data, dtype="f8")
+        if bkind == "nbin":
+            bp = int(bp)
+        try:
+            ref = call(entry, arr, bkind, bp, mnp, mxp)
+        except ValueError:
+            ref = "ValueError"
+        try:
+            got = call(entry, arr, bkind, bt, mnt, mxt)
+        except ValueError:
+            got = "ValueError"
+        except Exception as e:
+            return rec.fail(case, "raised %s: %s" % (type(e).__name__, e))
+        same = (got == ref) if isinstance(ref, str) or isinstance(got, str) else (
+            np.array_equal(got[0], ref[0]) and np.array_equal(got[1], ref[1]))
+        if not same:
+            return rec.fail(case, "%s=%r min=%r max=%r (typed) gives %r; the plain numbers of the same value give %r"
+                            % (bkind, bt, mnt, mxt, got if isinstance(got, str) else [g.tolist() for g in got],
+                               ref if isinstance(ref, str) else [g.tolist() for g in ref]))
+        rec.ok(case, outcome="typed:%s" % bkind, nontrivial=True, calls=2)
+
+    TB = [("nbin", ("i1", 3)), ("nbin", ("u1", 5)), ("nbin", ("i8", 2)), ("nbin", ("u8", 3)), ("binsize", ("f4", 0.5)), ("binsize", ("pyint", 1)),
+          ("binsize", ("i1", 1)), ("binsize", ("u1", 2)), ("binsize", ("f8", 0.3))]
+    TL = [None, ("f4", 0.5), ("pyint", 1), ("i1", -1), ("u1", 2), ("i8", 0)]
+    tunits = [(LV[0], bk, bs, mn, mx, entry) for (bk, bs) in TB for mn in TL for mx in (None, ("f4", 3.5), ("pyint", 3), ("u1", 3))
+              for entry in ("histogram", "binner")]
+    ctx.lattice("typed-parameters", tunits, one_typed, bounds=dict(binning=[repr(t) for t in TB], limits=[repr(t) for t in TL]))
+
     # long arrays: every 2-symbol pattern of length 12 (thorough) / 8 (quick)
     LL = ctx.pick(8, 12)
     pairs = [(0.0, 1.0), (0.5, 3.7), (-1.0, 0.30000000000000004), (1.0, 1.0)]
